@@ -229,18 +229,23 @@ OwnViol(fr, st) ==
          lvl |-> Len(st)]}
   ELSE {}
 
-(* Exactness / uninterceptability.  Given that every single request kills
-   exactly when used + n reaches the hard limit (conformance of ReqC/ReqM) and
-   that a pop charges the parent with exactly the child's use, a computation
-   is killed exactly for the limits L <= u iff: whenever a termination is
-   recovered by a CallContext, no CallContext still in progress around it has
-   been asked (including the failed request) for as much as its own limit.  *)
-RecoverViol(st, fr, fl) ==
-  UNION { (IF fl.r = "cpu" /\ fr[i].leffc > 0 /\ fr[i].base <= Len(st) /\ SumC(st, fr[i].base) + fl.n >= fr[i].leffc
-             THEN {[inv |-> "Exact", why |-> "cpu-kill-recovered-below-owner", lvl |-> i]} ELSE {})
-     \cup (IF fl.r = "mem" /\ fr[i].leffm > 0 /\ fr[i].base <= Len(st) /\ SumM(st, fr[i].base) + fl.n >= fr[i].leffm
-             THEN {[inv |-> "Exact", why |-> "mem-kill-recovered-below-owner", lvl |-> i]} ELSE {})
-          : i \in 1..Len(fr) }
+(* Exactness / uninterceptability.  Given that every single request kills exactly when used + n reaches the hard
+   limit (conformance of ReqC/ReqM) and that a pop charges the parent with exactly the child's use, a computation
+   is killed exactly for the limits L <= u iff a termination can only be recovered by the CallContext that OWNS the
+   limit that was reached: when the context being popped was killed by a limit it merely inherited (all that its
+   parent had left), the parent's limit has been reached too and the termination must go on.  (A context killed by
+   its own, stricter, limit is recovered by its parent whatever the size of the request: the work was not done.) *)
+RecoverViol(stBefore, fl) ==
+  LET n == Len(stBefore) IN
+  IF n < 2 THEN {}
+  ELSE LET child == stBefore[n]
+           par == stBefore[n-1]
+           leftc == RemoveR(par.hc, par.uc)
+           leftm == RemoveR(par.hm, par.um)
+       IN (IF child.status = "killed" /\ child.cause = "cpu" /\ par.status = "live" /\ leftc > 0 /\ child.hc = leftc
+           THEN {[inv |-> "Exact", why |-> "cpu-kill-by-inherited-limit-recovered", lvl |-> n - 1]} ELSE {})
+     \cup (IF child.status = "killed" /\ child.cause = "mem" /\ par.status = "live" /\ leftm > 0 /\ child.hm = leftm
+           THEN {[inv |-> "Exact", why |-> "mem-kill-by-inherited-limit-recovered", lvl |-> n - 1]} ELSE {})
 
 -----------------------------------------------------------------------------
 
@@ -391,7 +396,7 @@ Unwind ==
          tv == (IF k = "none" THEN TimeViol(r.st, clk, "unwind") ELSE {}) \cup PopChargeViol(stack, r) \cup OwnViol(frames, stack)
          truth == IF ~r.pan /\ pan = "term" /\ r.ret.status # "killed"
                   THEN {[inv |-> "StatusTruth", why |-> "terminated-reports-" \o r.ret.status, lvl |-> Len(stack)]} ELSE {}
-         exact == IF ~r.pan /\ pan = "term" THEN RecoverViol(r.st, fr, fail) ELSE {}
+         exact == IF ~r.pan /\ pan = "term" THEN RecoverViol(stack, fail) ELSE {}
      IN Step([op |-> "unwind"], r.st, fr, PanAfter(k, fr), IF r.pan THEN PopFail(r) ELSE fail,
              IF k = "none" THEN [op |-> "unwound", pan |-> k, ret |-> ProjCtx(r.ret), err |-> "term"]
              ELSE [op |-> "unwound", pan |-> k], truth \cup exact \cup popped \cup tv)
